@@ -69,6 +69,8 @@ bool ActionExecutor::cancelCurrent() {
   item.action->stop();
   delete item.action;
   action_deque.pop_front();
+  //! 当前动作已不存在。否则队列空了以后 current(), cancelCurrent(), schedule() 还会去取它的 front()
+  curr_action_deque_index_ = -1;
   schedule();
   return true;
 }
@@ -76,12 +78,17 @@ bool ActionExecutor::cancelCurrent() {
 bool ActionExecutor::cancel(ActionId action_id) {
   TBOX_ASSERT(action_id > 0);
 
-  for (auto &action_deque : action_deque_array_) {
+  for (int deque_index = 0; deque_index < 3; ++deque_index) {
+    auto &action_deque = action_deque_array_.at(deque_index);
     auto iter = std::find_if(action_deque.begin(), action_deque.end(),
       [action_id] (const Item &item) { return item.id == action_id; }
     );
 
     if (iter != action_deque.end()) {
+      //! 取消的正是当前动作，则当前动作已不存在
+      if (deque_index == curr_action_deque_index_ && iter == action_deque.begin())
+        curr_action_deque_index_ = -1;
+
       delete iter->action;
       action_deque.erase(iter);
       schedule();
